@@ -11,6 +11,14 @@ ASSUMPTIONS = ["floating point rounding is not modelled (comparison at 1e-9 rela
                "numba compilation of integrate() is trusted to implement the Python semantics"]
 
 
+def pregen(ctx):
+    """regenerate coq/Generated/StencilProg.v from the current source (fail-closed translator)"""
+    import sys, os
+    sys.path.insert(0, os.path.join(C.VERIF, "harness"))
+    import translate_kernel
+    translate_kernel.generate(C.REPO, C.COQ)
+
+
 def gen_grid(rng, n):
     kind = rng.choice(["uniform", "uniform", "jitter1", "jitterN", "gap", "random", "small_jitter"])
     h = C.dyadic(rng, 0.05, 2.0, 8)
@@ -236,8 +244,9 @@ LEVEL_TEXT = ("Theorems (Coq, all orders 1..8 x implicit points, all signal leng
               "(finite table decided by vm_compute in exact rationals, lifted to all polynomials by a linearity lemma); integrate() "
               "starts at start_value, is linear in (signal,start), trapezoid on >1% jitter / after restarts / near the end, never "
               "indexes before 0, and an order-4 step adds the exact integral of any cubic. The model is tied to the code by running "
-              "the extracted model and tools/time_integration.py on the same stencils (all 36) and generated signals.")
+              "the extracted model and tools/time_integration.py on the same stencils (all 36) and generated signals; in addition the four stencil functions are translated "
+              "syntactically from the current Python source into a deep embedding (Model/PyKernel.v) on every run and proved, by evaluation in exact rationals, to compute the model's weights.")
 LEVEL_NOTE = ("Trusted: Coq kernel, extraction (R as binary64), numba compiling integrate() faithfully, the harness tolerances "
               "(1e-9 relative). Real-number axioms of the Coq standard library only (see evidence trusted_base).")
-TECHNIQUE = "Coq proof (vm_compute table over Q + induction over the step list) + extracted-model correspondence + exact-rational oracles"
+TECHNIQUE = "Coq proof (vm_compute table over Q + induction over the step list); the stencil functions are regenerated from the Python source on every run (deep embedding + interpreter in Coq) + extracted-model correspondence + exact-rational oracles"
 DESIGN_REF = "DESIGN.md section 5 C20"
